@@ -256,23 +256,34 @@ def _run(ctx):
             rep.violation("TX-3", "statime::port::<Port>", "%s -> %s" % (g_, sorted(users)),
                           "sequence generator %s feeds %s (prescribed: exactly %s): sequence numbers of one message type would "
                           "skip or repeat" % (g_, sorted(gen_users.get(g_, [])), sorted(users)))
-    try:
-        gen = prog.one(name="generate", self_name="SequenceIdGenerator", crate="statime-lib")
-        pv = df.Prov(gen)
-        from sa.stores import stores
-        sts, _ = stores(gen, include_locals=False)
-        ret = df.canon(pv.local_tree(0), gen)
-        upd = [df.canon(s["tree"], gen) for s in sts if s["lhs"] == "self.current"]
-        ovf = [t["sp"][1] for bi, t in mir.iter_terms(gen, "assert")]
-        if ret == "self.current" and upd == ["wrapping_add(self.current, 1)"] and not ovf:
-            rep.ok("TX-3", gen.key, "returns current, advances by wrapping_add(1)", where=gen.loc())
-        else:
-            rep.violation("TX-3", gen.key, "returns current, advances by wrapping_add(1)",
-                          "generate() returns `%s`, updates current with %s, overflow-checked arithmetic at lines %s: sequence numbers "
-                          "do not increase by one modulo 2^16" % (ret, upd, ovf), where=gen.loc())
-    except AnchorMissing as e:
-        rep.anchor_missing("TX-3", str(e))
+    check_generator(rep, prog, "TX-3")
 
+    # ---------------- TX-9 / TX-10
+    rep.rule("TX-9", "a sequence generator is only ever advanced by generate(): no other assignment to a *_seq_ids field "
+                     "(a generator that is reset when the port re-enters a state repeats sequence numbers)", floor=1)
+    from sa.stores import stores as _stores
+    n9 = 0
+    for b in prog.bodies.values():
+        if b.unit.name != "statime-lib" or b.is_test() or b.self_name == "SequenceIdGenerator":
+            continue
+        try:
+            sts, _pv = _stores(b, include_locals=False)
+        except Exception:
+            continue
+        for s_ in sts:
+            f_ = s_["lhs"].split(".")
+            hit = [x for x in f_ if x.endswith("_seq_ids")]
+            if hit:
+                n9 += 1
+                rep.violation("TX-9", b.key, "store to %s" % hit[0],
+                              "%s is overwritten with `%s` outside the generator: the next message of that type repeats or "
+                              "skips sequence numbers" % (s_["lhs"], df.canon(s_["tree"], b)[:120]), where=fc.where(b, s_["line"]))
+    if n9 == 0:
+        rep.ok("TX-9", "statime::port::<Port>", "no store to a *_seq_ids field outside construction")
+    rep.rule("TX-10", "responses copy sdoId and domainNumber from the request header, so every request that reaches a handler "
+                      "has passed the sdoId AND domain filter - shared with C07 NI-1", floor=2)
+    from rules import c07 as _c07
+    _c07.check_domain_gate(rep, prog, "TX-10")
     # ---------------- TX-4
     for b in prog.bodies.values():
         if b.unit.name != "statime-lib" or b.is_test():
@@ -310,3 +321,25 @@ def _run(ctx):
                 rep.violation("TX-6", b.key, nm, "%s computes `%s`, the exact decomposition is `%s`" % (nm, got, want), where=b.loc())
         except AnchorMissing as e:
             rep.anchor_missing("TX-6", str(e))
+
+
+def check_generator(rep, prog, rid):
+    """SequenceIdGenerator::generate returns the current value and advances by wrapping_add(1)"""
+    from sa.stores import stores
+    try:
+        gen = prog.one(name="generate", self_name="SequenceIdGenerator", crate="statime-lib")
+        pv = df.Prov(gen)
+        from sa.stores import stores
+        sts, _ = stores(gen, include_locals=False)
+        ret = df.canon(pv.local_tree(0), gen)
+        upd = [df.canon(s["tree"], gen) for s in sts if s["lhs"] == "self.current"]
+        ovf = [t["sp"][1] for bi, t in mir.iter_terms(gen, "assert")]
+        if ret == "self.current" and upd == ["wrapping_add(self.current, 1)"] and not ovf:
+            rep.ok(rid, gen.key, "returns current, advances by wrapping_add(1)", where=gen.loc())
+        else:
+            rep.violation(rid, gen.key, "returns current, advances by wrapping_add(1)",
+                          "generate() returns `%s`, updates current with %s, overflow-checked arithmetic at lines %s: sequence numbers "
+                          "do not increase by one modulo 2^16" % (ret, upd, ovf), where=gen.loc())
+    except AnchorMissing as e:
+        rep.anchor_missing(rid, str(e))
+
